@@ -126,26 +126,74 @@ def passes (n : Node) (s : NodeState) : Bool :=
   | some p => p s
   | none => true
 
-/-- `update_nodes_liveness`. -/
-def updateNodesLiveness (n : Node) (now : Nat) : Node :=
-  let fd := (n.cs.nodes.map (·.1)).foldl
-    (fun fd i => if i = n.cfg.selfId then fd else fd.updateNodeLiveness n.cfg.fd i now) n.fd
-  let n := { n with fd := fd }
-  let current : List (Id × Nat) := n.liveNodes.foldl (fun acc i =>
+/-- The `(id ↦ max_version)` map of the live members that have a copy. -/
+def currentLive (n : Node) : List (Id × Nat) :=
+  n.liveNodes.foldl (fun acc i =>
     match n.cs.nodeState i with
     | some s => AL.insert Id.lt i s.maxVersion acc
     | none => acc) []
-  let n :=
-    if n.previousLive ≠ current then
-      let live : List (Id × NodeState) := current.foldl (fun acc p =>
-        match n.cs.nodeState p.1 with
-        | some s => if n.passes s then AL.insert Id.lt p.1 s acc else acc
-        | none => acc) []
-      { n with previousLive := current, watch := live, publishes := n.publishes + 1 }
-    else n
+
+/-- The live members that pass the extra predicate, with their current copy, in id order. -/
+def filteredLive (n : Node) : List (Id × NodeState) :=
+  n.currentLive.foldl (fun acc p =>
+    match n.cs.nodeState p.1 with
+    | some s => if n.passes s then AL.insert Id.lt p.1 s acc else acc
+    | none => acc) []
+
+/-- The watch-channel step of `update_nodes_liveness` (with the F-6 repair: a value is also
+published when the set of members passing the predicate differs from the members of the value
+currently held, even if no max version moved). -/
+def publishStep (n : Node) : Node :=
+  if n.previousLive ≠ n.currentLive ∨ n.filteredLive.map (·.1) ≠ n.watch.map (·.1) then
+    { n with previousLive := n.currentLive, watch := n.filteredLive, publishes := n.publishes + 1 }
+  else n
+
+/-- The watch-channel step as in the tree before the F-6 repair. -/
+def publishStepUnrepaired (n : Node) : Node :=
+  if n.previousLive ≠ n.currentLive then
+    { n with previousLive := n.currentLive, watch := n.filteredLive, publishes := n.publishes + 1 }
+  else n
+
+/-- The failure-detector pass of `update_nodes_liveness`. -/
+def evalLiveness (n : Node) (now : Nat) : Node :=
+  let fd' := (n.cs.nodes.map (·.1)).foldl
+      (fun fd i => if i = n.cfg.selfId then fd else fd.updateNodeLiveness n.cfg.fd i now) n.fd
+  { n with fd := fd' }
+
+/-- The node-GC pass of `update_nodes_liveness`. -/
+def gcDeadNodes (n : Node) (now : Nat) : Node :=
   let (gone, fd') := n.fd.garbageCollect n.cfg.fd now
-  let cs := gone.foldl (fun cs i => if i = n.cfg.selfId then cs else cs.removeNode i) n.cs
-  { n with fd := fd', cs := cs }
+  { n with fd := fd',
+           cs := gone.foldl (fun cs i => if i = n.cfg.selfId then cs else cs.removeNode i) n.cs }
+
+/-- `update_nodes_liveness`. -/
+def updateNodesLiveness (n : Node) (now : Nat) : Node :=
+  ((n.evalLiveness now).publishStep).gcDeadNodes now
+
+/-- `reset_node_state_if_update` (external catch-up), with the F-1 repair: the supplied max version
+is adopted and the watermark is never lowered, so that the final strict assertion holds by
+construction. Returns the events for the listeners. -/
+def resetNodeStateIfUpdate (n : Node) (i : Id) (kvs : List (Bytes × VV)) (maxVersion lastGc : Nat) :
+    Except Panic (Node × List (Id × Event)) :=
+  let shouldInit := (n.cs.lastHeartbeatIfDeleted i).isNone
+  let cs := if shouldInit then n.cs.initIfAbsent i else n.cs
+  match cs.nodeState i with
+  | none => .ok (n, [])
+  | some s =>
+    let n1 := { n with cs := cs }
+    if s.maxVersion ≥ maxVersion then .ok (n1, [])
+    else if maxVersion < s.lastGc then .ok (n1, [])
+    else
+      let fd := n.fd.createWindow i
+      let (s1, evs) := kvs.foldl (fun (acc : NodeState × List Event) kv =>
+          let (s', e) := acc.1.setVersionedValue kv.1 kv.2
+          (s', acc.2 ++ e)) (s, [])
+      let supplied := kvs.map (·.1)
+      let s2 := { s1 with kvs := s1.kvs.filter (fun p => supplied.contains p.1) }
+      let s3 := { s2 with lastGc := max lastGc s2.lastGc, maxVersion := max maxVersion s2.maxVersion }
+      if NodeState.frontierLt s.frontier s3.frontier then
+        .ok ({ n1 with cs := cs.setNode i s3, fd := fd }, evs.map (fun e => (i, e)))
+      else .error .catchupNotStrict
 
 /-- `gc_keys_marked_for_deletion`. -/
 def gcKeys (n : Node) (now : Nat) : Node := { n with cs := n.cs.gcKeys now n.cfg.grace }
